@@ -429,6 +429,52 @@ func TestIteratorProtocol(t *testing.T) {
 					m.ask(t, "iter-copy", nm+"._iter.next", want, strings.Join(tr2, " "))
 				}
 			},
+			"chain-calling-next-of-another": func(t *rapid.T) {
+				// the callee of a chain over one iterator advances another one by `next`: when that one runs out first the
+				// callee's StopIterErr is an error of the chain, not its end
+				need(t)
+				nm, other := pick(t), pick(t)
+				if m.models[nm] == m.models[other] {
+					t.Skip("needs two independent iterators")
+				}
+				vals, _, finite := m.remaining(*m.models[nm])
+				if !finite {
+					t.Skip("endless iterator: chains are not applied")
+				}
+				// the body of nm runs once more after its last value (the run that stops it); markers follow the real interleaving
+				cp := *m.models[nm]
+				trace := []string{}
+				pairs := []string{}
+				want := ""
+				for range vals {
+					var tr []string
+					x, _ := m.body.next(&cp, m.c, &tr)
+					trace = append(trace, tr...)
+					var tr2 []string
+					v, stop := m.body.next(m.models[other], m.c, &tr2)
+					trace = append(trace, tr2...)
+					if stop {
+						want = "ERR StopIterErr"
+						break
+					}
+					pairs = append(pairs, "["+x.String()+", "+v.String()+"]")
+				}
+				if want == "" {
+					var tr []string
+					m.body.next(&cp, m.c, &tr) // the stopping run
+					trace = append(trace, tr...)
+					want = "[" + strings.Join(pairs, ", ") + "]"
+				}
+				chainBetween = true
+				nontrivial = true
+				form := rapid.SampledFrom([]string{"%s@{|x| [x, %s.next]}", "%s=@{|x| [x, %s.next]}", "%s$([]){|acc, x| [*acc, [x, %s.next]]}", "zipf := {|x| [x, %s.next]}; %s@^zipf"}).Draw(t, "form")
+				q := fmt.Sprintf(form, nm, other)
+				if strings.HasPrefix(form, "zipf") {
+					q = fmt.Sprintf(form, other, nm)
+				}
+				vt.Class("action chain whose callee advances another iterator")
+				m.ask(t, "chain-callee-next", q, want, strings.Join(trace, " "))
+			},
 			"reassign-captured": func(t *rapid.T) {
 				m.c = rapid.IntRange(0, 4).Draw(t, "c")
 				m.exec(t, fmt.Sprintf("c := %d", m.c))
